@@ -90,6 +90,9 @@ def make_listing(rng: random.Random, style: str) -> List[L.SInst]:
         for s in insts:
             if s.ops and not s.annotation and rng.random() < 0.7:
                 s.ops = [rng.choice(fam) if rng.random() < 0.8 else o for o in s.ops]
+    elif style == "kernel":
+        # addresses of 16 significant hex digits (what objdump prints for a kernel image linked at 0xffffffff81000000)
+        insts = L.gen_listing(rng, n, start=rng.choice([0xffffffff81000000, 0xffffffffa0001ff0, 0xffff800000100000, 0x7fffffffe000]))
     else:
         insts = L.gen_listing(rng, n)
     RG._readdress(insts) if any(s.addr == 0 for s in insts[1:]) else None
